@@ -204,6 +204,10 @@ def one_case(rng, runq, todo, rep, dim, quick, idx):
     lin = refit(1.5 * y - 0.5 * y2) - (1.5 * yhat - 0.5 * refit(y2))
     if np.max(np.abs(lin)) > 1e-7 * max(1.0, np.max(np.abs(y)), np.max(np.abs(y2))) * slack:
         mon.append("smoother is not linear in the responses")
+    c2 = 2.0 ** -30                # responses in small units: the smoother has no absolute scale
+    small = refit(c2 * y) - c2 * yhat
+    if not np.all(np.isfinite(small)) or np.max(np.abs(small)) > 1e-7 * c2 * max(1.0, np.max(np.abs(y))) * slack:
+        mon.append(f"the fit of the responses times 2^-30 is not 2^-30 times the fit (max deviation {np.max(np.abs(small)):.3g})")
     if wkind == "binary" and np.any(w == 0):
         y3 = y.copy()
         y3[w == 0] += 5.0
